@@ -64,6 +64,29 @@ def register(gen, T):
         }
         Ok(())
     """
+    MOST_SIGNIFICANT_NON_VECTOR = """
+        let left_tyl = module.type_registry.get_type_layer(left);
+        let right_tyl = module.type_registry.get_type_layer(right);
+        let (left, right) = match (left_tyl, right_tyl) {
+            (ir::TypeLayer::Enum(_), ir::TypeLayer::Enum(_)) => (left, right),
+            (ir::TypeLayer::Enum(id), _) => (module.enum_registry.get_underlying_type_id(id), right),
+            (_, ir::TypeLayer::Enum(id)) => (left, module.enum_registry.get_underlying_type_id(id)),
+            _ => (left, right),
+        };
+        let left_order = match get_non_vector_conversion_rank(left, module) {
+            Some(order) => order,
+            None => return Err(TyperError::NumericTypeExpected(left_location)),
+        };
+        let right_order = match get_non_vector_conversion_rank(right, module) {
+            Some(order) => order,
+            None => return Err(TyperError::NumericTypeExpected(right_location)),
+        };
+        if left_order > right_order {
+            Ok(left)
+        } else {
+            Ok(right)
+        }
+    """
     CHECK_MUTABLE_PLACE = """
         let mut current = expr;
         loop {
@@ -467,6 +490,20 @@ def register(gen, T):
         msn = fn_body(expr, "most_significant_non_vector")
         if not re.search(r'if\s+left_order\s*>\s*right_order\s*\{\s*Ok\(left\)\s*\}\s*else\s*\{\s*Ok\(right\)\s*\}', msn):
             raise ExtractError("most_significant_non_vector: `if left_order > right_order` not found")
+        # fix 80dd7f9: the operands are first re-bound — an enum that meets a non-enum takes part with its underlying type.
+        # The model only ranks operands that are not enums (`elabArith` answers `unsupported enum operand` before
+        # `arithTarget`), i.e. the `_ => (left, right)` arm: the whole body is pinned so that this stays true.
+        if nows(msn) != nows(MOST_SIGNIFICANT_NON_VECTOR):
+            raise ExtractError("most_significant_non_vector: the body differs from the pinned copy (tools/gens/c03.py)")
+        _, rebinding, _ = first_match(msn, r'^\(left_tyl, right_tyl\)$')
+        msn_arms = [(normws(" | ".join(p_)), normws(r_)) for p_, g_, r_ in match_arms(rebinding) if g_ is None]
+        if len(msn_arms) != 4 or msn_arms[-1] != ("_", "(left, right)"):
+            raise ExtractError(f"most_significant_non_vector: arms of the operand re-binding changed: {msn_arms}")
+        out.append("/-- pinned by the translator (fix 80dd7f9): `most_significant_non_vector` re-binds `(left, right)` before ranking —\n"
+                   "    an enum that meets a non-enum takes part with its underlying type; operands that are not enums pass through\n"
+                   "    (last arm), which is the only case `Model.Elab.arithTarget` is asked about.  `(pattern, operands ranked)`: -/\n"
+                   "def mostSigNonVectorOperands : List (String × String) := " +
+                   T.lean_list(f"({lean_str(a_)}, {lean_str(b_)})" for a_, b_ in msn_arms) + "\n\n")
         ii = fn_body(expr, "is_integer_or_bool_or_enum")
         m = re.search(r'ir::TypeLayer::Scalar\(scalar\)\s*=>\s*matches!\s*\(', ii)
         if not m:
@@ -726,6 +763,24 @@ def register(gen, T):
             if f"ir::Expression::{node}(Box::new(composite_ir), swizzle_slots)" not in t or \
                     "combine_modifier(ty_unmod, composite_mod)" not in t or "if swizzle_slots.len() == 1" not in t:
                 raise ExtractError(f"Member: the {heads[arm_i]} arm no longer builds {node} the known way")
+        # fix c805c03: both arms refuse more than four slots right after the character loop, before anything is built:
+        # `for c in member.chars() { swizzle_slots.push(match c { .. }); } if swizzle_slots.len() > N { return Err(InvalidSwizzle(..)); }
+        #  let vt = ir::get_swizzle_value_type(&swizzle_slots, vt);`
+        max_len = {}
+        for arm_i, what in ((1, "scalar"), (2, "vector")):
+            t = nows(arms[arm_i][2])
+            mm = re.search(r'forcinmember\.chars\(\)\{swizzle_slots\.push\(matchc\{.*?\}\);\}'
+                           r'ifswizzle_slots\.len\(\)>(\d+)\{returnErr\(TyperError::(\w+)\('
+                           r'composite_ty,member\.node\.clone\(\),member\.get_location\(\),?\)\);\}'
+                           r'letvt=ir::get_swizzle_value_type\(&swizzle_slots,vt\);', t)
+            if not mm:
+                raise ExtractError(f"Member: the {what} arm has no `if swizzle_slots.len() > N {{ return Err(..) }}` between the "
+                                   "character loop and get_swizzle_value_type")
+            if mm.group(2) != "InvalidSwizzle":
+                raise ExtractError(f"Member: the {what} arm reports too many slots as {mm.group(2)}, not InvalidSwizzle")
+            if t.count("swizzle_slots.len()>") != 1 or t.count("forcinmember.chars()") != 1:
+                raise ExtractError(f"Member: the {what} arm compares swizzle_slots.len() more than once")
+            max_len[what] = int(mm.group(1))
         if "get_swizzle_value_type(&swizzle_slots, vt)" not in normws(arms[2][2]) or \
                 "get_matrix_swizzle_value_type(&swizzle_slots, vt)" not in normws(arms[3][2]):
             raise ExtractError("Member: value type of swizzles")
@@ -828,6 +883,10 @@ def register(gen, T):
                    "def scalarSwizzle : List (List Char × Nat × Nat) := " + lean_rows(scalar_rows) + "\n\n")
         out.append("/-- swizzle of a vector of width `x`: the arm applies when `x >= minimal width` -/\n"
                    "def vectorSwizzle : List (List Char × Nat × Nat) := " + lean_rows(vector_rows) + "\n\n")
+        out.append("/-- scalar arm: `if swizzle_slots.len() > n { return Err(InvalidSwizzle) }` after the character loop -/\n"
+                   f"def scalarMaxSlots : Nat := {max_len['scalar']}\n\n")
+        out.append("/-- vector arm: the same check -/\n"
+                   f"def vectorMaxSlots : Nat := {max_len['vector']}\n\n")
         out.append(f"/-- `read_matrix_subscript`: every slot starts with this character -/\ndef matrixOpen : Char := '{open_char}'\n\n")
         out.append(f"/-- ... optionally followed by this one (zero-based form) -/\ndef matrixM : Char := '{m_char}'\n\n")
         out.append("/-- component digits of the `_m` form: `(characters, minimal dimension, component)` -/\n"
